@@ -435,6 +435,48 @@ Proof. intros Hr Hcs. exact (lifting_rel (oi_step sp m t b) R call_fits oi_step_
 
 End OneIter.
 
+(* ---- the record from theorems in the shape of Proofs/OneIterProof.v (invariant + abstraction function,
+   N-indexed nth_opt / skipN, next_back as "empty or mid = mid' ++ [x]") ---- *)
+
+Lemma nth_opt_nth_error {A} (l : list A) : forall n, nth_opt l n = nth_error l (N.to_nat n).
+Proof.
+  induction l as [|x t IH]; intros n; cbn [nth_opt].
+  - destruct (N.to_nat n); reflexivity.
+  - destruct (N.eqb_spec n 0) as [->|Hn]; [reflexivity|].
+    replace (N.to_nat n) with (S (N.to_nat (n - 1))) by lia. cbn [nth_error]. apply IH.
+Qed.
+
+Lemma skipN_skipn {A} (l : list A) : forall n, skipN l n = skipn (N.to_nat n) l.
+Proof.
+  induction l as [|x t IH]; intros n; cbn [skipN].
+  - rewrite skipn_nil. reflexivity.
+  - destruct (N.eqb_spec n 0) as [->|Hn]; [reflexivity|].
+    replace (N.to_nat n) with (S (N.to_nat (n - 1))) by lia. cbn [skipn]. apply IH.
+Qed.
+
+Lemma oi_steps_ok_intro sp m t b (inv : one_iter -> Prop) (mid : one_iter -> list (N * N)) :
+  (forall it, inv it ->
+     exists it', oi_next_f t b it = Ok (it', hd_error (mid it)) /\ inv it' /\ mid it' = tl (mid it)) ->
+  (forall it n, inv it ->
+     exists it', oi_nth sp m t b it n = Ok (it', nth_opt (mid it) n) /\ inv it' /\ mid it' = skipN (mid it) (n + 1)) ->
+  (forall it, inv it ->
+     (mid it = [] /\ oi_next_back m t b it = Ok (it, None)) \/
+     (exists it' x, oi_next_back m t b it = Ok (it', Some x) /\ inv it' /\ mid it = mid it' ++ [x])) ->
+  (forall it, inv it -> oi_len it = lenN (mid it)) ->
+  oi_steps_ok sp m t b (fun it l => inv it /\ mid it = l).
+Proof.
+  intros Hn Hk Hb Hl. constructor.
+  - intros it l [Hi <-]. destruct (Hn it Hi) as (it' & E & Hi' & Hm). eauto.
+  - intros it l [Hi <-]. destruct (Hb it Hi) as [[Hm E]|(it' & x & E & Hi' & Hm)].
+    + exists it. rewrite Hm, E. split; [reflexivity|]. cbn [removelast]. rewrite <- Hm. auto.
+    + exists it'. rewrite E, Hm. unfold last_error. rewrite rev_app_distr. cbn [rev app hd_error].
+      rewrite removelast_last. auto.
+  - intros it l n [Hi <-] _. destruct (Hk it n Hi) as (it' & E & Hi' & Hm).
+    exists it'. rewrite E, Hm, nth_opt_nth_error, skipN_skipn.
+    replace (N.to_nat (n + 1)) with (S (N.to_nat n)) by lia. auto.
+  - intros it l [Hi <-]. rewrite (Hl it Hi). reflexivity.
+Qed.
+
 (* ---- every entry point of the plain bitvector ---- *)
 
 (* the facts about the initial states (also from Proofs/OneIterProof.v / SelectProof.v):
@@ -459,6 +501,28 @@ Proof.
   destruct tr.
   - destruct (oi_run_refines sp m Identity b R1 H1 cs it l Hr Hcs) as (it' & E & _). eauto.
   - destruct (oi_run_refines sp m Complement b R0 H0 cs it l Hr Hcs) as (it' & E & _). eauto.
+Qed.
+
+Lemma oi_entries_ok_intro sp m b B (inv1 inv0 : one_iter -> Prop) (mid1 mid0 : one_iter -> list (N * N)) :
+  (inv1 (oi_start Identity b) /\ mid1 (oi_start Identity b) = ranked_ones B) ->
+  (inv0 (oi_start Complement b) /\ mid0 (oi_start Complement b) = ranked_zeros B) ->
+  (forall r, r < 2 ^ 64 -> exists it, bv_select_iter_t sp m Identity b r = Ok it /\ inv1 it /\
+                                      mid1 it = skipN (ranked_ones B) r) ->
+  (forall r, r < 2 ^ 64 -> exists it, bv_select_iter_t sp m Complement b r = Ok it /\ inv0 it /\
+                                      mid0 it = skipN (ranked_zeros B) r) ->
+  (forall v, v < 2 ^ 64 -> exists it, bv_predecessor sp m b v = Ok it /\ inv1 it /\ mid1 it = pred_suffix B v) ->
+  (forall v, v < 2 ^ 64 -> exists it, bv_successor sp m b v = Ok it /\ inv1 it /\ mid1 it = succ_suffix B v) ->
+  oi_entries_ok sp m b B (fun it l => inv1 it /\ mid1 it = l) (fun it l => inv0 it /\ mid0 it = l).
+Proof.
+  intros H1 H0 Hs1 Hs0 Hp Hs e tr it0 l Ee El Hx.
+  destruct e; cbn [oi_entry] in Ee; try discriminate; injection Ee as <- <-;
+    cbn [bitvec_ref ones_ref zeros_ref] in El; injection El as <-.
+  - eexists. split; [reflexivity|exact H1].
+  - eexists. split; [reflexivity|exact H0].
+  - destruct (Hs1 r Hx) as (it & E & Hi & Hm). eauto.
+  - destruct (Hs0 r Hx) as (it & E & Hi & Hm). eauto.
+  - destruct (Hp v Hx) as (it & E & Hi & Hm). eauto.
+  - destruct (Hs v Hx) as (it & E & Hi & Hm). eauto.
 Qed.
 
 (* ---- ranks of a suffix of the ranked positions are consecutive ---- *)
